@@ -26,6 +26,7 @@ NOFORWARD: Dict[Tuple[str, str, str], str] = {
     ("geobox:GeoBox.from_geopolygon", "to_crs", "resolution"): "homonym: pixel resolution of the grid vs densification distance of Geometry.to_crs",
     ("geom:lonlat_bounds", "to_crs", "resolution"): "lonlat_bounds densifies with segmented(resolution) itself before projecting",
     ("geobox:GeoBoxBase.compute_zoom_to", "from_bbox", "shape"): "call sits in the `shape is None` branch, the grid is resolution-driven there",
+    ("data.__init__:ocean_geom", "__init__", "crs"): "features are lon/lat GeoJSON; the requested crs is applied by to_crs afterwards",
     ("math:snap_affine", "snap_scale", "tol"): "homonym: snap_affine's tol is the rotation tolerance; scales are snapped with stol",
 }
 
@@ -107,10 +108,11 @@ def _callee_param_names(g: FuncInfo) -> List[str]:
     return ps
 
 
-def _passes(call: ast.Call, callee: FuncInfo, pname: str, caller_param: str) -> bool:
+def _passes(call: ast.Call, callee: FuncInfo, pname: str, caller_param: str, deps=None) -> bool:
     """Does this call hand the caller's ``caller_param`` to the callee's ``pname``?"""
+    names_of = (lambda e: names_in(e) | deps(e)) if deps is not None else names_in
     for k in call.keywords:
-        if k.arg == pname and caller_param in names_in(k.value):
+        if k.arg == pname and caller_param in names_of(k.value):
             return True
         if k.arg is None and isinstance(k.value, ast.Name):
             return True  # **kw : cannot tell, assume forwarded
@@ -118,13 +120,16 @@ def _passes(call: ast.Call, callee: FuncInfo, pname: str, caller_param: str) -> 
             return True
     cps = [p.arg for p in callee.positional_params()]
     if callee.is_method and not callee.is_static and cps:
-        # bound call (x.m(...)) drops self; unbound Class.m(self, ...) keeps it
-        if isinstance(call.func, ast.Attribute) and not (isinstance(call.func.value, ast.Name) and call.func.value.id[:1].isupper()):
+        # bound call (x.m(...)) drops self; unbound Class.m(self, ...) keeps it; Class(...) drops it
+        explicit_init = isinstance(call.func, ast.Attribute) and call.func.attr == "__init__"
+        if callee.name == "__init__" and not explicit_init:
+            cps = cps[1:]
+        elif isinstance(call.func, ast.Attribute) and not explicit_init and not (isinstance(call.func.value, ast.Name) and call.func.value.id[:1].isupper()):
             cps = cps[1:]
     for i, a in enumerate(call.args):
         if isinstance(a, ast.Starred):
             return True
-        if i < len(cps) and cps[i] == pname and caller_param in names_in(a):
+        if i < len(cps) and cps[i] == pname and caller_param in names_of(a):
             return True
     return False
 
@@ -166,7 +171,7 @@ def rule_forward(prog: Program, modules: Optional[Set[str]] = None) -> List[Inst
                     out.append(Instance("R-FORWARD", cid, INFO, f"table: {NOFORWARD[key]}", fi.where(sites[0][0]), nontrivial=False))
                     continue
                 # is p handed over under another spelling (some argument expression mentions p)?
-                mentioned = any(p in org.deps(a) for call, _ in sites for a in list(call.args) + [k.value for k in call.keywords])
+                mentioned = any(_passes(call, callee, p, p, org.deps) for call, _ in sites)
                 if mentioned:
                     out.append(Instance("R-FORWARD", cid, OK, f"{p} is used to build the arguments of {callee.name}", fi.where(sites[0][0]), nontrivial=False))
                     continue
